@@ -514,6 +514,10 @@ class FnTranslator:
                 and not e.keywords:
             t = self.env[f.id][1]
             return self.fn_call(('FnDict', t[1], t[2], t[3]), t[5], [self.expr(a) for a in e.args])
+        if isinstance(f, ast.Attribute) and f.attr in ('bin', 'hex') and not e.args and not e.keywords and getattr(self.unit, 'ext', False) \
+                and isinstance(f.value, ast.Name) and self.env.get(f.value.id, (None, None))[1] == EXTMSG:
+            # message.bin() / message.hex(): the message class is outside the fragment; what they return is `ext`'s
+            return f'(← ext.{f.attr} {self.env[f.value.id][0]})', (LINT if f.attr == 'bin' else ('Text',))
         if self.pm:
             r = self.pm_call(e)
             if r is not None:
@@ -1151,9 +1155,13 @@ class FnTranslator:
             return self.block(s.body, ind)
         if isinstance(s, ast.With) and len(s.items) == 1 and isinstance(s.items[0].context_expr, ast.Call) \
                 and isinstance(s.items[0].context_expr.func, ast.Name) and s.items[0].context_expr.func.id in ('open', 'open_') \
-                and isinstance(s.items[0].optional_vars, ast.Name) and getattr(self.unit, 'file_param', None):
+                and isinstance(s.items[0].optional_vars, ast.Name) and (getattr(self.unit, 'file_param', None) or getattr(self.unit, 'written_file', None)):
             c = s.items[0].context_expr
             mode = c.args[1].value if len(c.args) > 1 and isinstance(c.args[1], ast.Constant) else None
+            if mode in ('wb', 'w') and getattr(self.unit, 'written_file', None) == s.items[0].optional_vars.id:
+                # the one file the function creates: what is written to it is the function's result (text mode: the
+                # characters written, as code points; no newline translation on the platform of the check)
+                return self.block(s.body, ind)
             if mode != 'rb':
                 raise Untranslatable('open mode ' + repr(mode))
             # the file that is opened for reading: its contents are a parameter of the unit
@@ -1345,8 +1353,11 @@ class FnTranslator:
                     return out
             # outfile.write(data): the bytes are appended to what has been written
             if f.attr == 'write' and isinstance(f.value, ast.Name) and self.env.get(f.value.id, (None, None))[1] == FILE and len(e.args) == 1:
-                v, vt = self.expr(e.args[0])
-                if vt != LINT:
+                if isinstance(e.args[0], ast.Constant) and isinstance(e.args[0].value, str):
+                    v, vt = '[' + ', '.join(f'({ord(ch)} : Int)' for ch in e.args[0].value) + ']', ('Text',)
+                else:
+                    v, vt = self.expr(e.args[0])
+                if vt not in (LINT, ('Text',)):
                     raise Untranslatable('write of ' + str(vt))
                 return [f'{ind}{f.value.id} := {f.value.id} ++ {v}']
             if f.attr == 'update' and len(e.args) == 1 and not e.keywords and isinstance(f.value, ast.Name) \
@@ -1746,6 +1757,12 @@ class FnTranslator:
             name, rec = self.out_rec
             for k in rec.fields:
                 body.append(f'  let mut {name}_{k} := {name}_{k}')
+        if getattr(u, 'written_file', None):
+            if any(isinstance(x, ast.Return) for x in ast.walk(fn)):
+                raise Untranslatable('return inside a function whose result is the file it writes')
+            body.append(f'  let mut {u.written_file} : (List Int) := []')
+            self.muts.append(u.written_file)
+            self.env[u.written_file] = (u.written_file, FILE)
         stmts = fn.body
         self.is_gen = any(isinstance(x, ast.Yield) for x in ast.walk(fn)) and not getattr(u, 'ctxmgr', False)
         if self.is_gen and self.pm:
@@ -1766,9 +1783,11 @@ class FnTranslator:
                 raise Untranslatable('context manager that does not end with try: yield finally: ...')
         elif not self.terminates(stmts):
             # falling off the end returns None (the object state for methods)
-            body.append(f'  return {self.ret_value(None)}')
+            body.append(f'  return {u.written_file if getattr(u, "written_file", None) else self.ret_value(None)}')
         if getattr(u, 'ctxmgr', False):
             rty = 'α'
+        elif getattr(u, 'written_file', None):
+            rty = '(List Int)'
         elif self.pm:
             rty = '(List M)' if self.is_gen else (lty(u.ret) if u.ret not in (None, NONE) else 'Unit')
         elif u.cls is not None:
@@ -2113,6 +2132,9 @@ def units():
     u.local_types = {'acc__': LIST(EXTMSG)}
     u.untyped_params = ('filename',)
     u.hoist = True
+    U.append(u)
+    u = Unit('mido/syx.py', 'write_syx_file', [('messages', LIST(EXTMSG)), ('plaintext', BOOL)], NONE)
+    u.ext, u.written_file, u.untyped_params = True, 'outfile', ('filename',)
     U.append(u)
     M = 'mido/midifiles/meta.py'
     U.append(Unit(M, 'encode_variable_int', [('value', INT)], LINT, fuel={'loop1': 'value.toNat'}))
